@@ -336,7 +336,7 @@ func runC19(c *Ctx) {
 func (c *Ctx) mustFollowOptQuiet(fn *ssa.Function, starts []start, b Sel) bool {
 	okv := len(starts) > 0
 	for _, s := range starts {
-		ir.Walk(s.b, s.idx, nil, func(in ssa.Instruction) bool {
+		ir.WalkCtx(s.b, s.idx, s.pred, nil, func(in ssa.Instruction) bool {
 			if b(in) {
 				return false
 			}
